@@ -5456,6 +5456,12 @@ class Arc(Curve):
         try:
             return self._exact_length()
         except:  # Fallback on any failure
+            # Start from chords of at most a 32nd of a turn: the chords of a many-turn arc must
+            # not all end at the same point of the ellipse.
+            turns = abs(self.sweep) / tau
+            while turns > 1 and min_depth < 64:
+                min_depth += 1
+                turns /= 2.0
             return self._line_length(error=error, min_depth=min_depth)
 
     def _svg_complex_parameterize(
